@@ -86,6 +86,7 @@ def netlists(
     max_outputs: int = 4,
     outputs_from: str = 'any',  # 'any' | 'gates'
     recency_bias: bool = True,
+    dup_rate: int = 0,  # out of 8: chance that a gate literally duplicates an earlier gate
 ):
     """Well-formed DAG netlist; gates listed inputs first then topologically."""
     types = list(types) if types is not None else ALL_TYPES
@@ -103,6 +104,14 @@ def netlists(
             typ = draw(st.sampled_from(consts))
         else:
             typ = draw(st.sampled_from(types))
+        if dup_rate and k > n_in and draw(st.integers(0, 7)) < dup_rate:
+            src = gates[n_in + draw(st.integers(0, k - n_in - 1))]
+            if src[1] in types:
+                ops = list(src[2])
+                if len(ops) >= 2 and draw(st.booleans()):
+                    ops = ops[1:] + ops[:1]
+                gates.append([labels[k], src[1], ops])
+                continue
         ar = _arity_for(draw, typ, max_arity)
         ops = []
         for _ in range(ar):
@@ -119,7 +128,7 @@ def netlists(
             lo, hi = n_in, total - 1
         else:
             lo, hi = 0, total - 1
-        n_out = draw(st.sampled_from([k for k in (0, 1, 1, 1, 2, 2, 3, 4, 5, 6) if min_outputs <= k <= max_outputs]))
+        n_out = draw(st.sampled_from([k for k in (1, 2, 1, 3, 2, 1, 4, 5, 6, 0) if min_outputs <= k <= max_outputs]))
         for _ in range(n_out):
             off = draw(st.integers(0, hi - lo))
             outs.append(gates[hi - off][0])
